@@ -80,8 +80,10 @@ def check_history(ctx, sc):
             ctx.fail("conn-close-count", f"{name}:{n_close}", f"{name}: EVT_CONN_CLOSE fired {n_close} times; history {_hist(ev)}")
             return
         if n_open == 1 and n_close == 0 and out["how"] == "quiescent":
+            trs = [e[3][2] for e in ev if e[2] == "EVT_FSM_TRANSITION"]
             last_fsm = [e[3] for e in ev if e[2] == "EVT_FSM_TRANSITION"][-1:] or [None]
-            ctx.fail("conn-close-missing", f"{name}:last={last_fsm[0][2] if last_fsm[0] else None}", f"{name}: connection opened but EVT_CONN_CLOSE never fired; history {_hist(ev)}")
+            key = f"{name}:killed-before-first-pdu" if set(trs) <= {"AE-5"} else f"{name}:last={last_fsm[0][2]}"
+            ctx.fail("conn-close-missing", key, f"{name}: connection opened but EVT_CONN_CLOSE never fired; history {_hist(ev)}")
             return
         if n_open:
             i_open = names.index("EVT_CONN_OPEN")
